@@ -276,6 +276,17 @@ func (p *c17) Run(c fw.Case, r *fw.Rec) {
 		}
 		nre++
 		r.Cover("reparse-checked")
+		if err != nil && !strings.Contains(text, "//") && !strings.Contains(text, "#") {
+			// XGo's scanner inserts a semicolon after "..." / "!" before a newline only outside parentheses:
+			// retry inside parentheses (the node may have been parsed at a deeper nesting level)
+			var x2 ast.Expr
+			var err2 error
+			if !fw.Guard(r, "parser.ParseExpr", func() { x2, err2 = parser.ParseExpr("(" + text + ")") }) && err2 == nil {
+				if pe, ok := x2.(*ast.ParenExpr); ok {
+					x, err = pe.X, nil
+				}
+			}
+		}
 		if err != nil {
 			if c17Exempt["R5:"+k] {
 				return true
